@@ -197,13 +197,33 @@ def cmd_run(args):
         raise HarnessError(f"ran {agg['runs']} of {runs} runs")
     # determinism slice: re-execute a few run indices in this process and in a fresh one
     heavy = prop == "C13"
+    slice_error = None
+    known = load_known()
+    try:
+        det, fid = _slices(prop, seed, tier, runs, workers, heavy)
+    except HarnessError as e:
+        if not [sig for sig in agg["viols"] if (prop, sig) not in known]:
+            raise
+        # violations were found: report them (exit 1); the self-test failure is recorded, not hidden
+        slice_error = str(e)
+        det = {"error": slice_error}
+        fid = {"error": slice_error}
+    directed = directed_known(prop, known)
+    return _report(prop, tier, seed, level, agg, runs, t0, det, fid, known, directed, workers, slice_error)
+
+
+def _slices(prop, seed, tier, runs, workers, heavy):
     det = determinism_slice(prop, seed, tier, min(runs, (24 if tier == "quick" else 64) if not heavy
                                                  else (16 if tier == "quick" else 32)), workers)
     fid = fidelity_slice(prop, seed, tier, min(runs, (16 if tier == "quick" else 200) if not heavy
                                                else (8 if tier == "quick" else 32)), workers) \
         if prop in ("C05", "C13", "C16") else {"runs_compared": 0, "note": "scenario does no file I/O"}
-    known = load_known()
-    directed = directed_known(prop, known)
+    return det, fid
+
+
+def _report(prop, tier, seed, level, agg, runs, t0, det, fid, known, directed, workers, slice_error):
+    from . import minimise
+
     new_viol = []
     known_seen = []
     for sig in sorted(agg["viols"]):
@@ -239,6 +259,8 @@ def cmd_run(args):
         print(f"  signature={v['signature']} occurrences={v['count']} minimised_steps={n}")
     if len(new_viol) > len(reported):
         print(f"  (+{len(new_viol) - len(reported)} further violation signatures not minimised)")
+    if slice_error:
+        print(f"  note: self-test slice failed on this (violating) tree: {slice_error}")
     print(f"{prop} {tier}: runs={runs} steps={agg['steps']} distinct={len(agg['fps'])} "
           f"nontrivial_distinct={len(agg['nontriv'])} violations={len(new_viol)} "
           f"known={len(known_seen)} wall={wall_s:.1f}s repo={REPO}")
@@ -309,6 +331,8 @@ def _fid_range(prop, seed, tier, lo, hi):
             b = runner.generate(prop, seed, tier, i, fs=simfs.RealFS(root), cfg_override=over)
         finally:
             shutil.rmtree(root, ignore_errors=True)
+        if a.violation is not None or b.violation is not None:
+            continue  # a violating run stops early and is reported by the main batch; RealFS has no event trace
         if a.fingerprint != b.fingerprint:
             raise HarnessError(f"stub fidelity: run {i} of {prop} differs between SimFS and a real directory")
         n += 1
